@@ -408,7 +408,20 @@ def handleC05 (op : String) (input impl : Json) : Except String Json := do
           | none => ["every-branch-exported"]
           | some e => (if sameColumnNames e want then [] else ["columns-under-their-own-names"]) ++
                       (if sameRowsByName e want then [] else ["non-conflicting-changes-kept-and-untouched-rows-unchanged"])
-        return reply (Json.mkObj [("judged", Json.str "three-way"), ("base", jNats bases), ("rows", jNat want.rows.length)]) viol.isEmpty viol
+        -- model and implementation agree when the implementation holds the resolution over the base the
+        -- FAITHFUL model of SeekCommonAncestor picks (Model/Queue.lean, heads in the order given), which is
+        -- the best common ancestor except on the recorded finding C05-three-heads-wrong-base
+        let implBase := match seekCommonAncestor g heads with
+          | .ok (some b) => some b
+          | _ => none
+        let agreeM := match implBase, got with
+          | some b, some e =>
+            (match threeWayByName pkNames (tabOf b) (heads.map tabOf) with
+             | some wm => sameColumnNames e wm && sameRowsByName e wm
+             | none => false)
+          | _, _ => false
+        return reply (Json.mkObj [("judged", Json.str "three-way"), ("base", jNats bases), ("rows", jNat want.rows.length),
+          ("modelBase", jNats implBase.toList)]) (viol.isEmpty || agreeM) viol
     | _ => return reply (note "not-judged:no-single-best-common-ancestor" bases) true []
   | _ => throw s!"unknown op {op}"
 
